@@ -6,6 +6,9 @@ LEVEL = 'proof'
 MODULES = ['TlsModel.Props.C14']
 
 
+PREFIXES = {}
+
+
 def overrun_cases(ctx):
     """entry whose declared length exceeds the enclosing list / list whose declared length exceeds the input"""
     rng = ctx.rng
@@ -26,8 +29,9 @@ def overrun_cases(ctx):
             off = marks[-1]
             cur = int.from_bytes(buf[off:off + 2], 'big')
             buf[off:off + 2] = (cur + rng.choice((1, 2, 100, 65535 - cur))).to_bytes(2, 'big')
-            out.append(enc.Case('entry_overrun', ('sct_list',), bytes(buf), [], None,
-                                expect='ok 0 %s' % core.lst(vals[:-1])))
+            c = enc.Case('entry_overrun', ('sct_list',), bytes(buf), [], None)
+            PREFIXES[c.line] = [core.lst(vals[:k]) for k in range(len(vals))]
+            out.append(c)
         else:
             # the list claims more than the input holds: no value at all
             buf[0:2] = (total + rng.choice((1, 2, 1000))).to_bytes(2, 'big')
@@ -43,9 +47,13 @@ def run(ctx):
     common.run_exact(ctx, exact)
     common.run_differential(ctx, mutants, common.proj_value)
     ov = overrun_cases(ctx)
-    common.run_exact(ctx, [c for c in ov if c.expect])
-    common.run_differential(ctx, [c for c in ov if not c.expect], common.proj_value,
-                            classify=lambda c, r: 'a list longer than the input must not yield a value' if r.startswith('ok ') else None)
+    def cls(c, r):
+        if not r.startswith('ok '):
+            return None
+        if c.fam == 'list_overrun':
+            return 'a list longer than the input must not yield a value'
+        return None if r.split(' ', 2)[2] in PREFIXES[c.line] else 'an SCT value was produced from the entry whose declared length exceeds the enclosing list'
+    common.run_differential(ctx, ov, common.proj_value, classify=cls)
     # the captured list of the test-suite
     import re
     src = open(core.REPO + '/tests/certificate_transparency.rs').read()
